@@ -444,7 +444,9 @@ def context_spec(rng, raising=True):
             # "present" must not be confused with "truthy" or "not None"
             v = rng.choice([None, None, 0, '', [], False])
             r = rng.choice([['Falsy'], ['Not', ['Truthy']], ['NotEq', 1], ['Eq', jv(v)], ['Any'],
-                            ['In', [None, 0, '', False]], ['Or', [['Falsy'], ['Eq', 5]]]])
+                            ['In', [None, 0, '', False]], ['Or', [['Falsy'], ['Eq', 5]]],
+                            # an attribute the inquiry's element most likely lacks, compared with a falsy value
+                            [rng.choice(['SubjectMatch', 'ActionMatch', 'ResourceMatch']), rng.choice(['id', 'zz'])]])
             if isinstance(v, list) and r[0] == 'In':
                 r = ['Falsy']
         else:
